@@ -8,7 +8,9 @@ statements left out. Each token becomes one integer depth * 2^32 + crc32(token t
 (coq/theories/Sched/ShapeCanon.v, `canon_<function>`, produced once by tools/mkshape.py and committed); the comparison
 is the premise `Cxx_source_shape` of the properties that depend on the function. A change to the control flow, a guard,
 an assignment or a call of one of these functions therefore breaks a proof obligation even when the sampled
-correspondence does not reach the changed path; comments, log messages, docstrings and assertions may change freely.
+correspondence does not reach the changed path; comments, log messages, docstrings and assertions may change freely, and
+so may the NAMES of local variables (they are renamed to _v1, _v2, ... in order of first occurrence before the skeleton
+is taken: a consistent rename is invisible, a variable used in place of another is not).
 """
 import ast
 import json
@@ -150,6 +152,46 @@ def _tokens(stmts, depth, out):
             raise tables.TranslatorError('shape: unexpected statement %s' % type(st).__name__)
 
 
+def _alpha(fn):
+    """A copy of the function in which every LOCAL variable (a name the body assigns: assignment / for / with / except /
+    comprehension targets; not the parameters, not global or nonlocal names) is renamed to _v<k>, k in the order of its
+    first occurrence. Renaming a local consistently therefore leaves the skeleton alone; using one variable where another
+    was used does not."""
+    import copy
+    fn = copy.deepcopy(fn)
+    params = {a.arg for a in fn.args.args + fn.args.kwonlyargs + fn.args.posonlyargs}
+    if fn.args.vararg:
+        params.add(fn.args.vararg.arg)
+    if fn.args.kwarg:
+        params.add(fn.args.kwarg.arg)
+    outer = set()
+    local = set()
+    for node in ast.walk(fn):
+        if isinstance(node, (ast.Global, ast.Nonlocal)):
+            outer |= set(node.names)
+        elif isinstance(node, ast.Name) and isinstance(node.ctx, (ast.Store, ast.Del)):
+            local.add(node.id)
+        elif isinstance(node, ast.ExceptHandler) and node.name:
+            local.add(node.name)
+    local -= params | outer
+    order = {}
+
+    class R(ast.NodeTransformer):
+        def visit_Name(self, node):
+            if node.id in local:
+                node.id = order.setdefault(node.id, '_v%d' % (len(order) + 1))
+            return node
+
+        def visit_ExceptHandler(self, node):
+            if node.name in local:
+                node.name = order.setdefault(node.name, '_v%d' % (len(order) + 1))
+            self.generic_visit(node)
+            return node
+    for st in fn.body:
+        R().visit(st)
+    return fn
+
+
 def functions_of(tree):
     """qualname -> FunctionDef for module-level functions and methods of (nested) classes; first definition wins
     (property getter before setter)."""
@@ -227,7 +269,7 @@ def shapes():
             out[key] = ([], [])
             continue
         toks = [(0, 'def(%s)' % ', '.join(a.arg for a in fn.args.args))]
-        _tokens(fn.body, 1, toks)
+        _tokens(_alpha(fn).body, 1, toks)
         out[key] = ([d * (1 << 32) + (zlib.crc32(t.encode()) & 0xffffffff) for d, t in toks], toks)
     for prop, keys in prop_keys().items():
         for k in keys:
